@@ -16,7 +16,11 @@ TRUSTED_BASE = [
 ]
 ASSUMPTIONS = ["margin disabled for every pool, liquidity protection inactive, removal lock period 0 in the correspondence histories",
                "map iterations modelled in sorted order (order-independence is C09)"]
-UNPROVED = []
+UNPROVED = [
+    "reachable_units_Statement holds only outside finding F17 (AddLiquidity into a pool with an empty side resets pool units): proved as reachable_units_partial under RunOK",
+    "payout bound of removals (pro-rata up to 1 base unit + 1e-15 relative) is not yet proved; it is exercised by the L0/L1 correspondence",
+    "removal queue: margin is disabled in the model slice, so queued-removal processing is not modelled",
+]
 MANIFEST = {
     "text": "Units invariant (pool units = sum of provider units, every provider record belongs to a pool) and removal bounds proved in Lean over an exact model of the clp handlers; model tied to the Go keeper by state-for-state differential execution; the invariant predicate itself judged on every implementation state.",
     "note": "Trusted: Lean kernel (+3 standard axioms), hand-written model tied only by the correspondence, harness/driver, x/bank semantics. Margin messages are out of this slice (custody enters as configured pool fields).",
